@@ -26,7 +26,8 @@ META = {
         " Also: the error check covers Twp, Rge and Sec (no constant False switch, wrapper/callee defaults agree), TractParser takes over its parent's flags whenever there is a parent, parallel clause / row shapes of TRS.is_error."
         " Round 7: TractParser starts from the tract's flags whenever Tract.parse replaces them; the description-level error check asks the tracts, not the staged components; TRS.is_error / is_undef decided for all 216 component-state x switch combinations; flag-prefix ambiguity."
         ' Round 8: gen_flags_chunk() dominates every return of its caller; the pp_twprge_pm wildcard also deletes warning wording (known finding).'
-        ' Round 9: keyword pre-test tables are implied by the warning patterns (members enumerated).'),
+        ' Round 9: keyword pre-test tables are implied by the warning patterns (members enumerated).'
+        " Round 10: `flags.append(pair[0]); flag_lines.append(pair)` is a pair by construction (shape read off the helper's returns)."),
     'families': ['PAIR', 'TBL', 'ORDER', 'RX-LANG', 'FORWARD', 'DEADPARAM', 'SIB-DEFAULTS'],
 }
 
@@ -77,6 +78,41 @@ def _strish(fi, expr, depth=0):
             return 'notstr'
         return 'str' if kinds == {'str'} else 'unknown'
     return 'unknown'
+
+
+def _pair_maker(fi, name_node):
+    """True when the local `name` is unpacked from a call to a package function whose
+    returns put `None` or a 2-tuple in that position"""
+    for st in walk_local(fi.node):
+        if not (isinstance(st, ast.Assign) and len(st.targets) == 1 and isinstance(st.value, ast.Call)):
+            continue
+        t = st.targets[0]
+        if isinstance(t, ast.Name) and t.id == name_node.id:
+            pos = None
+        elif isinstance(t, ast.Tuple) and any(isinstance(e, ast.Name) and e.id == name_node.id for e in t.elts):
+            pos = [i for i, e in enumerate(t.elts) if isinstance(e, ast.Name) and e.id == name_node.id][0]
+        else:
+            continue
+        nm = dotted(st.value.func) or ''
+        node = flow.RESOLVER(nm, st.value, fi.node) if flow.RESOLVER and nm else None
+        if node is None:
+            return False
+        rets = [r.value for r in ast.walk(node) if isinstance(r, ast.Return) and r.value is not None]
+        if not rets:
+            return False
+        for r in rets:
+            v = r
+            if pos is not None:
+                if not (isinstance(r, ast.Tuple) and pos < len(r.elts)):
+                    return False
+                v = r.elts[pos]
+            if isinstance(v, ast.Constant) and v.value is None:
+                continue
+            if isinstance(v, ast.Tuple) and len(v.elts) == 2:
+                continue
+            return False
+        return True
+    return False
 
 
 def pair_sites(ctx, funcs, rule='PAIR'):
@@ -132,6 +168,16 @@ def pair_sites(ctx, funcs, rule='PAIR'):
             if k == 'notstr':
                 ctx.violation(rule, construct, f"the flag `{norm(flag)}` is not a str",
                               key=key + '|flagtype', where=common.loc(fi, st))
+                continue
+            if isinstance(line, ast.Name) and isinstance(flag, ast.Subscript) and isinstance(flag.value, ast.Name) \
+                    and flag.value.id == line.id and isinstance(flag.slice, ast.Constant) and flag.slice.value == 0:
+                # `flags.append(pair[0]); flag_lines.append(pair)`: the flag is the first field of the very
+                # line that is stored - in step by construction; what the pair is made of is read off the
+                # helper that returned it
+                made = _pair_maker(fi, line)
+                ctx.shape(made, rule, construct, f"flag taken from the stored pair `{line.id}` (a 2-tuple built by the helper)",
+                          why=f"`{line.id}` is stored as the flag line and its first field as the flag; where the pair is built "
+                              f"was not resolved")
                 continue
             if not (isinstance(line, ast.Tuple) and len(line.elts) == 2):
                 ctx.violation(rule, construct,
@@ -275,6 +321,18 @@ def _hand_down(ctx):
         if isinstance(st, ast.Expr) and isinstance(st.value, ast.Call):
             nm = dotted(st.value.func) or ''
             calls[nm.split('.')[-1]] = st
+    if 'examine_unused' not in calls:
+        # the same step written without the nested helper: top-level statements that read
+        # self.unused_components and add to the error flags
+        steps = [st for st in p.node.body if not isinstance(st, (ast.FunctionDef, ast.If, ast.For, ast.While))
+                 and any(norm(x) in ('self.e_flags', 'self.e_flag_lines', 'self.unused_components')
+                         for x in ast.walk(st) if isinstance(x, ast.Attribute))
+                 and not (isinstance(st, ast.Expr) and isinstance(st.value, ast.Call)
+                          and (dotted(st.value.func) or '').startswith('self.unused_components.'))]
+        reads = [st for st in steps if any(norm(x) == 'self.unused_components' for x in ast.walk(st))]
+        writes = [st for st in steps if any(norm(x) in ('self.e_flags', 'self.e_flag_lines') for x in ast.walk(st))]
+        if reads and writes:
+            calls['examine_unused'] = writes[-1]
     for need in ('construct_tracts', 'examine_unused', 'check_sec_within_tracts',
                  'check_error_tracts', 'hand_down_flags'):
         if need not in calls:
